@@ -1,4 +1,8 @@
-use std::{cell::RefCell, collections::BTreeMap, fmt::Display};
+use std::{
+    cell::RefCell,
+    collections::{BTreeMap, BTreeSet},
+    fmt::Display,
+};
 
 use serde::{
     de::{value::MapAccessDeserializer, DeserializeSeed, Visitor},
@@ -8,6 +12,7 @@ use serde::{
 use crate::utils::{formatter::Formatter, Key, KeyPath, UnwrapAt};
 
 use super::{
+    cfg_file::ConfigFile,
     error::{Error, Result},
     locale::{
         DefaultTo, DefaultedLocales, InterpolOrLit, InterpolationKeys, LiteralType, Locale,
@@ -453,7 +458,7 @@ impl ParsedValue {
         foreign_key: &mut ForeignKey,
         values: &LocalesOrNamespaces,
         top_locale: &Key,
-        default_locale: &Key,
+        cfg_file: &ConfigFile,
         key_path: &KeyPath,
     ) -> Result<()> {
         let ForeignKey::NotSet(foreign_key_path, args) = &*foreign_key else {
@@ -461,39 +466,44 @@ impl ParsedValue {
             return Ok(());
         };
 
-        let Some(value) = values.get_value_at(top_locale, foreign_key_path) else {
-            return Err(Error::MissingForeignKey {
-                foreign_key: foreign_key_path.to_owned(),
-                locale: top_locale.clone(),
-                key_path: key_path.to_owned(),
+        // a locale that does not define the key (absent or explicit default) uses the value of the locale it inherits from,
+        // then the one of the default locale: same walk as `DefaultedLocales::default_of`.
+        let mut value_locale = top_locale;
+        let mut visited = BTreeSet::new();
+        let value = loop {
+            match values.get_value_at(value_locale, foreign_key_path) {
+                None | Some(ParsedValue::Default) if value_locale != &cfg_file.default => {
+                    visited.insert(value_locale);
+                    value_locale = cfg_file
+                        .extensions
+                        .get(value_locale)
+                        .filter(|inherited| !visited.contains(inherited))
+                        .unwrap_or(&cfg_file.default);
+                }
+                None => {
+                    return Err(Error::MissingForeignKey {
+                        foreign_key: foreign_key_path.to_owned(),
+                        locale: top_locale.clone(),
+                        key_path: key_path.to_owned(),
+                    }
+                    .into());
+                }
+                // this check is normally done in a later step for optimisations (Locale::make_builder_keys),
+                // but we still need to do it here as there is nowhere left to take the value from:
+                // this case happen if a foreign key point to an explicit default in the default locale
+                Some(ParsedValue::Default) => {
+                    return Err(Error::ExplicitDefaultInDefault(key_path.to_owned()).into());
+                }
+                Some(value) => break value,
             }
-            .into());
         };
 
-        if matches!(value, ParsedValue::Default) {
-            // this check is normally done in a later step for optimisations (Locale::make_builder_keys),
-            // but we still need to do it here to avoid infinite loop
-            // this case happen if a foreign key point to an explicit default in the default locale
-            // pretty niche, but would cause a rustc stack overflow if not done.
-            if top_locale == default_locale {
-                return Err(Error::ExplicitDefaultInDefault(key_path.to_owned()).into());
-            } else {
-                return Self::resolve_foreign_key_inner(
-                    foreign_key,
-                    values,
-                    default_locale,
-                    default_locale,
-                    key_path,
-                );
-            }
-        }
-
         // possibility that the foreign key must be resolved too
-        value.resolve_foreign_key(values, top_locale, default_locale, foreign_key_path)?;
+        value.resolve_foreign_key(values, value_locale, cfg_file, foreign_key_path)?;
 
         // possibility that args must resolve too
         for arg in args.values() {
-            arg.resolve_foreign_key(values, top_locale, default_locale, foreign_key_path)?;
+            arg.resolve_foreign_key(values, top_locale, cfg_file, foreign_key_path)?;
         }
 
         let value = value.populate(args, foreign_key_path, top_locale, key_path)?;
@@ -507,21 +517,21 @@ impl ParsedValue {
         &self,
         values: &LocalesOrNamespaces,
         top_locale: &Key,
-        default_locale: &Key,
+        cfg_file: &ConfigFile,
         path: &KeyPath,
     ) -> Result<()> {
         match self {
             ParsedValue::Variable { .. } | ParsedValue::Literal(_) | ParsedValue::Default => Ok(()),
             ParsedValue::Subkeys(_) => Ok(()), // unreachable ?
             ParsedValue::Ranges(inner) => {
-                inner.resolve_foreign_keys(values, top_locale, default_locale, path)
+                inner.resolve_foreign_keys(values, top_locale, cfg_file, path)
             }
             ParsedValue::Component { inner, .. } => {
-                inner.resolve_foreign_key(values, top_locale, default_locale, path)
+                inner.resolve_foreign_key(values, top_locale, cfg_file, path)
             }
             ParsedValue::Bloc(bloc) => {
                 for value in bloc {
-                    value.resolve_foreign_key(values, top_locale, default_locale, path)?;
+                    value.resolve_foreign_key(values, top_locale, cfg_file, path)?;
                 }
                 Ok(())
             }
@@ -538,15 +548,15 @@ impl ParsedValue {
                     &mut foreign_key,
                     values,
                     top_locale,
-                    default_locale,
+                    cfg_file,
                     path,
                 )
             }
             ParsedValue::Plurals(Plurals { forms, other, .. }) => {
                 for value in forms.values() {
-                    value.resolve_foreign_key(values, top_locale, default_locale, path)?;
+                    value.resolve_foreign_key(values, top_locale, cfg_file, path)?;
                 }
-                other.resolve_foreign_key(values, top_locale, default_locale, path)
+                other.resolve_foreign_key(values, top_locale, cfg_file, path)
             }
         }
     }
